@@ -2,7 +2,8 @@
    Statements only; proofs are in Proofs/SubscribeProofs.v; the model is Model/Subscribe.v.
    Vocabulary (Model/Subscribe.v):
      cfg            = (producer order, handler order, live filter, channel capacity)
-     final c n m s  = state after schedule s (ANY list over {producer, subscriber i}) on a stream of n
+     final c n m s  = state after schedule s (ANY list over {producer AP, subscriber AS i, AO = a frame of ANOTHER
+                      stream published on the same channel}) on a stream of n
                       frames with m potential subscribers; a subscriber's first two steps are its attach
                       operations, so every attach moment relative to every publish/record step is a schedule
      ExactlyOnce    = delivered seqs are exactly 0..k-1 (once each, ascending), k covers every frame
@@ -33,9 +34,11 @@ Theorem c06_exactly_once_nolag : forall (c : cfg) (cap : nat),
 Proof. exact exactly_once_nolag_thm. Qed.
 Print Assumptions c06_exactly_once_nolag.
 
-(* a stream of at most `capacity` frames never lags — whatever the orders, the schedule, the subscribers *)
+(* if the stream's frames plus the frames other streams put on the same channel during the run (the
+   continuity channel is shared by all threads; 0 for session and task channels) fit the capacity,
+   nothing lags — whatever the orders, the schedule, the subscribers *)
 Theorem c06_lag_bound : forall (c : cfg) (cap n m : nat) (sched : list actor),
-  c_cap c = Some cap -> n <= cap -> NoLag (final c n m sched).
+  c_cap c = Some cap -> n + count_other sched <= cap -> NoLag (final c n m sched).
 Proof. exact lag_bound_thm. Qed.
 Print Assumptions c06_lag_bound.
 
@@ -58,7 +61,7 @@ Proof. exact (exactly_once_kinds gen_kinds gen_stream_order_ok). Qed.
 Print Assumptions c06_exactly_once_code.
 
 Theorem c06_exactly_once_code_short_stream : forall (k : kind_orders), In k gen_kinds ->
-  forall (n m : nat) (sched : list actor) (i : nat) (x : sub), n <= kind_cap k ->
+  forall (n m : nat) (sched : list actor) (i : nat) (x : sub), n + count_other sched <= kind_cap k ->
   nth_error (g_subs (final (kind_code_cfg k) n m sched)) i = Some x -> attached x = true ->
   ExactlyOnce (kind_code_cfg k) n (final (kind_code_cfg k) n m sched) x.
 Proof. exact (short_stream_kinds gen_kinds gen_stream_order_ok). Qed.
@@ -102,6 +105,14 @@ Example c06_demo_mid_run :
   /\ map (delivered okc) (g_subs (final okc 3 3 (firstn 7 demo_sched))) = [[0; 1]; [0; 1]; []].
 Proof. exact demo_mid_run. Qed.
 Print Assumptions c06_demo_mid_run.
+
+Example c06_demo_shared_channel :
+  NoLag (final (code_cfg (Some 7)) 3 3 demo_shared_sched)
+  /\ g_prog (final (code_cfg (Some 7)) 3 3 demo_shared_sched) = []
+  /\ map (delivered (code_cfg (Some 7))) (g_subs (final (code_cfg (Some 7)) 3 3 demo_shared_sched)) = [[0; 1; 2]; [0; 1; 2]; [0; 1; 2]]
+  /\ count_other demo_shared_sched = 4.
+Proof. exact demo_shared. Qed.
+Print Assumptions c06_demo_shared_channel.
 
 Example c06_demo_nolag :
   NoLag (final (code_cfg (Some 3)) 3 3 demo_sched)
